@@ -206,7 +206,7 @@ Definition pick_ok (rv : bool) (x : option feature) (m : mstate) (req : bool) (f
   ((In (req, f) (m_cache m) /\ eligible f (m_bits m) = true /\
     (rv = false -> req = true ->
      forall g, In (false, g) (m_cache m) -> cand (m_negd m) (m_bits m) (false, g) = false))
-   \/ (forced fs (Q m) f (m_bits m) /\ forall r, ~ In (r, f) (m_cache m))).
+   \/ (forced fs (Q m) f (m_bits m) /\ eligible f (m_bits m) = true /\ forall r, ~ In (r, f) (m_cache m))).
 
 Lemma pick_neg_ok rv x m req f : RI rv x m -> pick_ok rv x m req f -> neg_ok m f.
 Proof.
@@ -216,13 +216,16 @@ Proof.
   repeat split; auto.
   - destruct Pc as [(Pi & _)|(Pf & _)]; [left | right; exact Pf].
     split; [eapply ri_adv0; eauto | exists req; exact Pi].
-  - destruct Pc as [(_ & Pe & _)|(Pf & _)]; auto.
-  - intros Hs Hc g Hg. destruct Pc as [(Pi & _ & Pv)|(_ & Pn')]; [|exfalso; eapply Pn'; eauto].
+  - destruct Pc as [(_ & Pe & _)|(_ & Pe & _)]; exact Pe.
+  - intros Hs Hc g Hg. destruct Pc as [(Pi & _ & Pv)|(_ & _ & Pn')]; [|exfalso; eapply Pn'; eauto].
     assert (E : (true, f) = (req, f)) by (apply (ukeys_unique (m_cache m)); auto).
     inversion E; subst. apply Pv; auto.
-  - apply has_refl.
   - discriminate.
 Qed.
+
+(* the mask handed to negotiateSession adds nothing to the state but, possibly, Ready *)
+Definition bits_plus_ready (b mask : N) : Prop :=
+  N.lor b mask = b \/ N.lor b mask = N.lor b st_Ready.
 
 Definition PostPick (rv : bool) (m' : mstate) (r : res (option (N * bool))) : Prop :=
   H m' /\ q_last (Q m') = m_bits m' /\ q_refused (Q m') = None /\ q_expect (Q m') = None /\
@@ -233,7 +236,8 @@ Definition PostPick (rv : bool) (m' : mstate) (r : res (option (N * bool))) : Pr
       (restart = false -> RI rv None m') /\
       (has (N.lor (m_bits m') mask) st_Ready = false -> N.lor (m_bits m') mask = m_bits m') /\
       (has (N.lor (m_bits m') mask) st_Ready = true ->
-       q_self_ready (Q m') = true \/ (restart = false /\ ~ pending (Q m')))
+       q_self_ready (Q m') = true \/ (restart = false /\ ~ pending (Q m'))) /\
+      bits_plus_ready (m_bits m') mask
   | _ => True
   end.
 
@@ -275,13 +279,15 @@ Proof.
       assert (Habs : N.lor (m_bits m3) (o_mask o) = m_bits m3).
       { apply lor_absorb. rewrite Hb3. apply has_lor_r. }
       destruct (m_lreq m3 || o_restart o) eqn:Elr.
-      * rewrite N.lor_0_r, Habs. split; [auto|]. intro X. left. apply Hself. exact X.
-      * apply orb_false_iff in Elr. destruct Elr as [El Er]. split.
+      * rewrite N.lor_0_r. unfold bits_plus_ready. rewrite Habs. split; [auto|]. split; [|left; reflexivity].
+        intro X. left. apply Hself. exact X.
+      * apply orb_false_iff in Elr. destruct Elr as [El Er]. split; [|split].
         -- intro X. exfalso. rewrite N.lor_assoc, has_ready_lor, has_refl, orb_true_r in X. discriminate.
         -- intros _. right. split; [exact Er|].
            intros (g & Hg & _). rewrite HQ in Hg. simpl in Hg. rewrite ri_cache0 in Hg.
            assert (Y : m_lreq m3 = true) by (rewrite Hl3; eapply ri_lreq0; eauto).
            congruence.
+        -- right. rewrite N.lor_assoc, Habs. reflexivity.
     + apply orb_false_iff in Ebr. destruct Ebr as [Er _].
       inversion E; subst m' r; clear E. unfold PostPick. destruct Hbase as (X1 & X2 & X3 & X4).
       split; [exact X1|]. split; [exact X2|]. split; [exact X3|]. split; [exact X4|]. apply HR. exact Er.
@@ -329,7 +335,8 @@ Definition PostNF (m' : mstate) (r : res (N * bool)) : Prop :=
       (restart = false -> q_negd (Q m') = m_negd m') /\
       (has (N.lor (m_bits m') mask) st_Ready = false -> N.lor (m_bits m') mask = m_bits m') /\
       (has (N.lor (m_bits m') mask) st_Ready = true ->
-       q_self_ready (Q m') = true \/ (restart = false /\ ~ pending (Q m')))
+       q_self_ready (Q m') = true \/ (restart = false /\ ~ pending (Q m'))) /\
+      bits_plus_ready (m_bits m') mask
   | Bad e => forall e', q_refused (Q m') = Some e' -> e' = e
   | Stuck => q_refused (Q m') = None
   end.
@@ -344,8 +351,9 @@ Lemma PostPick_NF rv m' r :
   end.
 Proof.
   intros (P1 & P2 & P3 & P3' & P4). destruct r as [[[mask restart]|]|e|]; auto.
-  - destruct P4 as (X1 & X2 & X3 & X4). unfold PostNF. repeat split; auto.
-    intro Er. apply (ri_negd _ _ _ (X2 Er)).
+  - destruct P4 as (X1 & X2 & X3 & X4 & X5). unfold PostNF.
+    split; [exact P1|]. split; [exact P2|]. split; [exact P3|]. split; [exact P3'|]. split; [exact X1|].
+    split; [intro Er; apply (ri_negd _ _ _ (X2 Er))|]. split; [exact X3|]. split; [exact X4 | exact X5].
   - unfold PostNF. repeat split; auto. intros e' X. congruence.
   - unfold PostNF. repeat split; auto.
 Qed.
@@ -375,13 +383,13 @@ Lemma init_loop_ok fuel : forall m fo m' r,
   init_loop fuel c m fo = (m', r) -> H m -> RI false None m ->
   (forall f, fo = Some f ->
      f_neg f = true /\ forced fs (Q m) f (m_bits m) /\ (forall rq, ~ In (rq, f) (m_cache m)) /\
-     mem (f_space f) (m_negd m) = false) ->
+     mem (f_space f) (m_negd m) = false /\ eligible f (m_bits m) = true) ->
   PostNF m' r.
 Proof.
   induction fuel as [|k IH]; intros m fo m' r E HH R Hfo; simpl in E.
   - inversion E; subst. eapply PostNF_stuck; eauto.
   - destruct fo as [f|].
-    + destruct (Hfo f eq_refl) as (F1 & F2 & F3 & F4).
+    + destruct (Hfo f eq_refl) as (F1 & F2 & F3 & F4 & F5).
       destruct (m_choices m) as [|ch rest] eqn:Ech.
       * inversion E; subst. eapply PostNF_stuck; eauto.
       * destruct (negb (bytes_eqb ch (f_space f))).
@@ -389,7 +397,7 @@ Proof.
         -- destruct (after_pick c (set_choices rest m) true f) as [m1 r1] eqn:Ea.
            assert (PK : pick_ok false None (set_choices rest m) true f).
            { unfold pick_ok. simpl. split; [exact F1|]. split; [exact F4|]. split; [discriminate|].
-             right. split; [exact F2|exact F3]. }
+             right. split; [exact F2|]. split; [exact F5 | exact F3]. }
            pose proof (after_pick_ok false None _ true f m1 r1 Ea HH (RI_choices _ _ rest m R) PK) as PP.
            pose proof (PostPick_NF _ _ _ PP) as PN.
            destruct r1 as [[mr|]|e|]; inversion E; subst; auto.
@@ -417,6 +425,7 @@ Proof.
         split; [exact HH1|]. split; [auto|]. repeat split; auto.
         -- intro X. rewrite has_lor_r in X. discriminate.
         -- intros _. right. split; [reflexivity|]. rewrite SQ. apply no_candidates_no_pending; auto.
+        -- right. reflexivity.
       * inversion E; subst. unfold PostNF. destruct R1. split; [auto|]. split; [auto|]. intros e' X. congruence.
       * inversion E; subst. eapply PostNF_stuck; eauto.
 Qed.
@@ -617,13 +626,15 @@ Proof.
       split; [exact HH|]. split; [auto|]. repeat split; auto.
       + intro X. rewrite has_lor_r in X. discriminate.
       + intros _. right. split; [reflexivity|]. intros (g & Hg & _). rewrite ri_cache0, (Ht eq_refl) in Hg. exact Hg.
+      + right. reflexivity.
     - destruct (m_cache m) eqn:Ec.
       + inversion E; subst. unfold PostNF. destruct R. split; [auto|]. split; [auto|]. intros e' Y. congruence.
       + rewrite <- Ec in E. eapply init_loop_ok; eauto. discriminate. }
   destruct (first && negb (match cache_get ns_StartTLS (m_cache m) with Some _ => true | None => false end)
             && negb (has (m_bits m) st_Secure)) eqn:Eforce; [|apply Tail; exact E].
   destruct (find_space ns_StartTLS fs) as [f|] eqn:Ef; [|apply Tail; exact E].
-  destruct (f_neg f) eqn:En; [|apply Tail; exact E].
+  destruct (f_neg f && eligible f (m_bits m)) eqn:En; [|apply Tail; exact E].
+  apply andb_true_iff in En. destruct En as [En Eel].
   apply andb_true_iff in Eforce. destruct Eforce as [Eforce E3]. apply andb_true_iff in Eforce. destruct Eforce as [E1 E2].
   apply negb_true_iff in E2, E3. subst first. destruct (Hf eq_refl) as [Hn Hd].
   destruct (find_space_spec _ _ _ Ef) as [_ Esp].
@@ -633,7 +644,7 @@ Proof.
   - split.
     + intros rq Hin. apply In_cache_get in Hin. unfold ckey in Hin. simpl in Hin. rewrite Esp in Hin.
       destruct (cache_get ns_StartTLS (m_cache m)); [discriminate | apply Hin; reflexivity].
-    + rewrite Hd. reflexivity.
+    + split; [rewrite Hd; reflexivity | exact Eel].
 Qed.
 
 (* ------------------------------------------------------------------ negotiateFeatures *)
@@ -852,24 +863,31 @@ Definition Est (m : mstate) : Prop :=
   has (m_bits m) st_Ready = true ->
   q_self_ready (Q m) = true \/ (q_need_header (Q m) = false /\ ~ pending (Q m)).
 
+(* the state is what the events determine, plus possibly Ready *)
+Definition exact_bits (b last : N) : Prop := b = last \/ b = N.lor last st_Ready.
+
+Lemma exact_bits_has b last : exact_bits b last -> has b last = true.
+Proof. intros [->| ->]; [apply has_refl | apply has_lor_l; apply has_refl]. Qed.
+
 Definition RelW (m : mstate) (ns : nstate) (istee : bool) : Prop :=
   (has (m_bits m) st_Ready = false -> Rel m ns istee) /\
-  has (m_bits m) (q_last (Q m)) = true /\ Est m /\ q_refused (Q m) = None.
+  exact_bits (m_bits m) (q_last (Q m)) /\ Est m /\ q_refused (Q m) = None.
 
 Definition Final (r : result) : Prop :=
   H (r_state r) /\ established_partial (Q (r_state r)) r /\ refusal_reported (Q (r_state r)) r /\
-  has (r_bits r) (q_last (Q (r_state r))) = true.
+  has (r_bits r) (q_last (Q (r_state r))) = true /\ exact_bits (r_bits r) (q_last (Q (r_state r))).
 
 Lemma Final_noerr cl m :
-  H m -> has (m_bits m) (q_last (Q m)) = true -> q_refused (Q m) = None ->
+  H m -> exact_bits (m_bits m) (q_last (Q m)) -> q_refused (Q m) = None ->
   (cl = ROk -> has (m_bits m) st_Ready = true /\ Est m) ->
   Final (mkR cl (m_bits m) m).
 Proof.
-  intros HH Hb Hr Hok. unfold Final, established_partial, refusal_reported. simpl.
+  intros HH Hx Hr Hok. pose proof (exact_bits_has _ _ Hx) as Hb.
+  unfold Final, established_partial, refusal_reported. simpl.
   split; [exact HH|]. split.
   - intro Ec. destruct (Hok Ec) as [Y1 Y2]. split; [exact Y1|]. split; [exact Hb|].
     intro Hs. destruct (Y2 Y1) as [Z|Z]; [congruence | exact Z].
-  - split; [intros e Y; congruence | exact Hb].
+  - split; [intros e Y; congruence | split; [exact Hb | exact Hx]].
 Qed.
 
 Lemma session_loop_ok fuel : forall m ns istee,
@@ -897,7 +915,7 @@ Proof.
       * destruct (negotiator_body c m ns) as [m1 rb] eqn:Eb.
         pose proof (negotiator_body_ok m ns istee m1 rb Eb HH R Erd) as NB.
         destruct rb as [[[mask restart] ns1]|e|].
-        -- destruct NB as [(P1 & P2 & P3 & P4 & P5 & P6 & P7 & P8) Ens]. subst ns1.
+        -- destruct NB as [(P1 & P2 & P3 & P4 & P5 & P6 & P7 & P8 & P9) Ens]. subst ns1.
            set (m2 := if restart then set_negd [] m1 else m1).
            assert (Q2 : Q m2 = Q m1) by (unfold m2; destruct restart; reflexivity).
            assert (B2 : m_bits m2 = m_bits m1) by (unfold m2; destruct restart; reflexivity).
@@ -922,18 +940,18 @@ Proof.
               ** intros Et X. subst istee. rewrite Et in Etee. discriminate.
               ** exact P4.
               ** exact P3.
-           ++ rewrite P2. apply has_lor_l. apply has_refl.
+           ++ unfold exact_bits. rewrite P2. exact P9.
            ++ intro X. destruct (P8 X) as [Y|[Y1 Y2]]; [left; exact Y|right].
               split; [rewrite P5; exact Y1 | exact Y2].
            ++ exact P3.
         -- destruct NB as (P1 & P2 & P3). unfold Final, established_partial, refusal_reported. simpl.
            split; [exact P1|]. split; [discriminate|]. split.
            ++ intros e' Y. rewrite (P3 e' Y). reflexivity.
-           ++ rewrite P2. apply has_refl.
+           ++ rewrite P2. split; [apply has_refl | left; reflexivity].
         -- destruct NB as (P1 & P2 & P3). unfold Final, established_partial, refusal_reported. simpl.
            split; [exact P1|]. split; [discriminate|]. split.
            ++ intros e' Y. congruence.
-           ++ rewrite P2. apply has_refl.
+           ++ rewrite P2. split; [apply has_refl | left; reflexivity].
 Qed.
 
 End Inv.
@@ -944,13 +962,14 @@ Lemma run_final c bits clear tls outs choices :
   let r := run c bits clear tls outs choices in
   holds (c_feats c) (c_ws c) (cl_all (c_feats c)) (mon0 bits) (trace r) /\
   let q := final (c_feats c) (c_ws c) (mon0 bits) (trace r) in
-  established_partial q r /\ refusal_reported q r /\ has (r_bits r) (q_last q) = true.
+  established_partial q r /\ refusal_reported q r /\ has (r_bits r) (q_last q) = true /\
+  exact_bits (r_bits r) (q_last q).
 Proof.
   unfold run.
   pose proof (session_loop_ok c bits (fuel_for clear tls) (init_state bits clear tls outs choices) (mkNS true true) false) as F.
   apply F.
   - exact I.
-  - unfold RelW, Est. simpl. split; [|split; [apply has_refl|split; [|reflexivity]]].
+  - unfold RelW, Est. simpl. split; [|split; [left; reflexivity|split; [|reflexivity]]].
     + intros _. constructor; simpl; auto; discriminate.
     + intros _. right. split; [reflexivity|]. intros (g & [] & _).
 Qed.
@@ -1002,31 +1021,6 @@ Proof. apply (run_final c bits clear tls outs choices). Qed.
 
 End Clauses.
 
-(* with the masks starttls.go declares, the forced attempt satisfies the prerequisites too *)
-Lemma not_secure_disj st : has st st_Secure = false -> disj st st_Secure = true.
-Proof.
-  unfold has, disj. change st_Secure with (N.ones 1). rewrite N.land_ones.
-  change (N.ones 1) with 1%N. change (2 ^ 1)%N with 2%N.
-  intro X. apply N.eqb_neq in X. apply N.eqb_eq.
-  assert (Hlt : (st mod 2 < 2)%N) by (apply N.mod_upper_bound; discriminate).
-  lia.
-Qed.
-
-Definition cl_eligible (q : mon) (e : event) : Prop :=
-  match e with ENeg f st _ => eligible f st = true | _ => True end.
-
-Lemma clause_prerequisites_builtin c bits clear tls outs choices :
-  (forall f, find_space ns_StartTLS (c_feats c) = Some f -> f_nec f = ft_starttls_nec /\ f_proh f = ft_starttls_proh) ->
-  holds (c_feats c) (c_ws c) cl_eligible (mon0 bits) (trace (run c bits clear tls outs choices)).
-Proof.
-  intro Hb. eapply holds_impl; [|apply clause_prerequisites].
-  intros q e. destruct e; simpl; auto.
-  intros [X|(F1 & F2 & F3 & F4)]; [exact X|].
-  destruct (Hb f F2) as [Hn Hp]. unfold eligible. rewrite Hn, Hp.
-  change ft_starttls_nec with 0%N. change ft_starttls_proh with st_Secure.
-  rewrite (not_secure_disj _ F4). unfold has. rewrite N.land_0_r. reflexivity.
-Qed.
-
 (* ------------------------------------------------------------------ the clauses, event by event *)
 
 (* [holds] is "at every event, in the monitor state reached by the events before it" *)
@@ -1059,7 +1053,7 @@ Lemma at_neg_advertised f st o :
 Proof. intro E. exact (proj1 (holds_at _ _ _ _ _) (clause_advertised c bits clear tls outs choices) _ _ _ E). Qed.
 
 Lemma at_neg_prerequisites f st o :
-  trace r = pre ++ ENeg f st o :: post -> eligible f st = true \/ forced fs q f st.
+  trace r = pre ++ ENeg f st o :: post -> eligible f st = true.
 Proof. intro E. exact (proj1 (holds_at _ _ _ _ _) (clause_prerequisites c bits clear tls outs choices) _ _ _ E). Qed.
 
 Lemma at_neg_voluntary_first f st o :
@@ -1145,8 +1139,21 @@ End Refusal.
 
 (* ------------------------------------------------------------------ state bits only grow *)
 
-(* the state after a Negotiate call that saw st and returned o *)
-Definition after_neg (st : N) (o : outcome) : N := if o_err o then st else N.lor st (o_mask o).
+Lemma upd_last fs ws q e :
+  q_last (upd fs ws q e) = match e with ENeg _ st o => after_neg st o | _ => q_last q end.
+Proof.
+  destruct e as [rp st it| rp | w | f | f | f st o | n | b]; simpl; try reflexivity.
+  - destruct rp; try reflexivity.
+    + destruct it as [[] []]; reflexivity.
+    + destruct (selection_space _ it); [|reflexivity]. destruct (accept _ _ _ _) as [[? ?]|]; reflexivity.
+  - destruct w as [|st names []|]; reflexivity.
+Qed.
+
+Lemma last_is_acc fs ws : forall tr q, q_last (final fs ws q tr) = acc_bits (q_last q) tr.
+Proof.
+  induction tr as [|e tr IH]; intro q; simpl; [reflexivity|].
+  rewrite IH, upd_last. destruct e; reflexivity.
+Qed.
 
 Lemma last_grows fs ws : forall tr q,
   holds fs ws cl_monotone q tr -> has (q_last (final fs ws q tr)) (q_last q) = true.
@@ -1154,18 +1161,8 @@ Proof.
   induction tr as [|e tr IH]; intros q Hh; simpl in *.
   - apply has_refl.
   - destruct Hh as [He Hr]. apply IH in Hr. eapply has_trans; [exact Hr|]. clear Hr IH.
-    destruct e as [rp st it| rp | w | f | f | f st o | n | b]; simpl; try apply has_refl.
-    + destruct rp; try apply has_refl.
-      * destruct it as [[] []]; simpl; apply has_refl.
-      * destruct (selection_space _ it); [|apply has_refl].
-        destruct (accept _ _ _ _) as [[? ?]|]; apply has_refl.
-    + destruct w as [|st names []|]; apply has_refl.
-    + simpl in He. destruct (o_err o); [exact He | apply has_lor_l; exact He].
-Qed.
-
-Lemma upd_in_select_last fs ws q st it : q_last (upd fs ws q (EIn RPSelect st it)) = q_last q.
-Proof.
-  simpl. destruct (selection_space _ it); [|reflexivity]. destruct (accept _ _ _ _) as [[? ?]|]; reflexivity.
+    rewrite upd_last. destruct e; try apply has_refl.
+    simpl in He. subst st. unfold after_neg. destruct (o_err o); [apply has_refl | apply has_lor_l; apply has_refl].
 Qed.
 
 Section Monotone.
@@ -1174,13 +1171,21 @@ Let r := run c bits clear tls outs choices.
 Let fs := c_feats c.
 Let ws := c_ws c.
 
-Lemma neg_sees_initial_bits pre f st o post :
+(* the state a Negotiate call sees is exactly what the calls before it determine *)
+Lemma neg_sees_accounted pre post f st o :
+  trace r = pre ++ ENeg f st o :: post -> st = acc_bits bits pre.
+Proof.
+  intro E. pose proof (at_event_monotone c bits clear tls outs choices _ _ _ E) as X. simpl in X.
+  rewrite X. apply (last_is_acc (c_feats c) (c_ws c) pre (mon0 bits)).
+Qed.
+
+Lemma neg_sees_initial_bits pre post f st o :
   trace r = pre ++ ENeg f st o :: post -> has st bits = true.
 Proof.
-  intro E. pose proof (proj1 (clause_monotone c bits clear tls outs choices)) as Hm. fold r fs ws in Hm.
-  pose proof (at_event_monotone c bits clear tls outs choices _ _ _ E) as X. simpl in X.
-  rewrite E in Hm. apply holds_app in Hm. destruct Hm as [Hm _]. apply last_grows in Hm. simpl in Hm.
-  eapply has_trans; eauto.
+  intro E. rewrite (neg_sees_accounted _ _ _ _ _ E).
+  pose proof (proj1 (clause_monotone c bits clear tls outs choices)) as Hm. fold r fs ws in Hm.
+  rewrite E in Hm. apply holds_app in Hm. destruct Hm as [Hm _]. apply last_grows in Hm.
+  rewrite last_is_acc in Hm. exact Hm.
 Qed.
 
 Lemma neg_sees_earlier_neg pre f1 st1 o1 mid f2 st2 o2 post :
@@ -1195,18 +1200,17 @@ Proof.
   rewrite E in Hm. apply holds_app in Hm. destruct Hm as [_ Hm]. simpl in Hm. destruct Hm as [_ Hm].
   apply holds_app in Hm. destruct Hm as [Hm _]. apply last_grows in Hm.
   fold fs ws in X. rewrite final_app in X. simpl in X.
-  eapply has_trans; [exact X|]. eapply has_trans; [exact Hm|]. simpl. unfold after_neg.
-  destruct (o_err o1); apply has_refl.
+  rewrite X. eapply has_trans; [exact Hm|]. simpl. unfold after_neg. apply has_refl.
 Qed.
 
-Lemma final_bits_contain_neg pre f st o post :
+Lemma final_bits_contain_neg pre post f st o :
   trace r = pre ++ ENeg f st o :: post -> has (r_bits r) (after_neg st o) = true.
 Proof.
   intro E. destruct (clause_monotone c bits clear tls outs choices) as [Hm Hf]. fold r fs ws in Hm, Hf.
   rewrite E in Hm, Hf. rewrite final_app in Hf. simpl in Hf.
   apply holds_app in Hm. destruct Hm as [_ Hm]. simpl in Hm. destruct Hm as [_ Hm].
   apply last_grows in Hm. eapply has_trans; [exact Hf|]. eapply has_trans; [exact Hm|].
-  simpl. unfold after_neg. destruct (o_err o); apply has_refl.
+  simpl. unfold after_neg. apply has_refl.
 Qed.
 
 Lemma final_bits_contain_initial : has (r_bits r) bits = true.
@@ -1215,5 +1219,44 @@ Proof.
   apply last_grows in Hm. simpl in Hm. eapply has_trans; eauto.
 Qed.
 
+(* the final state is exactly what the Negotiate calls determine, plus possibly Ready *)
+Lemma final_bits_accounted :
+  r_bits r = acc_bits bits (trace r) \/ r_bits r = N.lor (acc_bits bits (trace r)) st_Ready.
+Proof.
+  pose proof (run_final c bits clear tls outs choices) as (_ & _ & _ & _ & X). fold r fs ws in X.
+  unfold exact_bits in X. rewrite last_is_acc in X. exact X.
+Qed.
+
 End Monotone.
 
+
+(* ------------------------------------------------------------------ established, in terms of the trace *)
+
+Lemma upd_self_ready fs ws q e :
+  q_self_ready (upd fs ws q e) =
+  match e with ENeg _ _ o => q_self_ready q || (has (o_mask o) st_Ready && negb (o_err o)) | _ => q_self_ready q end.
+Proof.
+  destruct e as [rp st it| rp | w | f | f | f st o | n | b]; simpl; try reflexivity.
+  - destruct rp; try reflexivity.
+    + destruct it as [[] []]; reflexivity.
+    + destruct (selection_space _ it); [|reflexivity]. destruct (accept _ _ _ _) as [[? ?]|]; reflexivity.
+  - destruct w as [|st names []|]; reflexivity.
+Qed.
+
+Lemma final_self_ready fs ws : forall tr q,
+  q_self_ready (final fs ws q tr) = q_self_ready q || self_ready tr.
+Proof.
+  induction tr as [|e tr IH]; intro q; simpl; [rewrite orb_false_r; reflexivity|].
+  rewrite IH, upd_self_ready. destruct e; try reflexivity. rewrite orb_assoc. reflexivity.
+Qed.
+
+Lemma established_when_no_self_ready c bits clear tls outs choices :
+  let r := run c bits clear tls outs choices in
+  let q := final (c_feats c) (c_ws c) (mon0 bits) (trace r) in
+  r_class r = ROk ->
+  has (r_bits r) st_Ready = true /\
+  (self_ready (trace r) = false -> q_need_header q = false /\ ~ pending q).
+Proof.
+  intros r q Hok. destruct (clause_established_partial c bits clear tls outs choices Hok) as (A & _ & B).
+  split; [exact A|]. intro Hs. apply B. rewrite final_self_ready. simpl. exact Hs.
+Qed.
